@@ -97,7 +97,15 @@ def executor_check(w: World, h: Any, res: Optional[Result] = None) -> None:
     violation whose signature is the raising frame."""
     if h.thread.finished:
         sig = h.thread.exc_tb or 'exited'
-        w.fail('executor_died', sig, 'executor thread ended: %r' % (h.thread.exc,))
+        msg = 'executor thread ended: %r' % (h.thread.exc,)
+        from .kernel import _short_tb
+        for qn, task in w.long_tasks:
+            if qn.endswith('_run_forever') and task.done() and not task.cancelled():
+                e = task.exception()
+                if e is not None:
+                    sig = _short_tb(e)
+                    msg = 'exception escaped the executor loop: %r' % (e,)
+        w.fail('executor_died', sig, msg)
 
 
 def end_run(w: World, h: Any, res: Result) -> Result:
